@@ -231,26 +231,8 @@ def nontrivial(case):
     return re.search(r"\b(o[1-9]\d*|b\d+)\b", case) is not None
 
 
-def _stored(case):
-    return re.search(r"\b[ob][1-9]\d*\b", case) is not None
-
-
 def finding_key(case, impl, model):
-    """Only the four confirmed defects of the pinned tree, and only on inputs that store leading zeros and on which the
-    implementation does exactly what the faithful model (`_v0`) says while the value-level spec says otherwise."""
-    m = re.match(r"SPECDIFF model=(.*?) spec=(.*)$", model or "")
-    if not m or not _stored(case):
-        return None
-    mod, spec = m.group(1), m.group(2)
-    if impl != mod and not (mod.endswith("...") and impl.startswith(mod[:-3])):
-        return None
-    op = case.split()[0]
-    if op == "slowsq" and impl == "PANIC":
-        return "poly-slow-square-leading-zero"
-    if op == "square" and impl == "PANIC":
-        return "poly-square-leading-zero"
-    if op == "truncate" and impl != "PANIC":
-        return "poly-truncate-raw"
-    if op == "hash" and impl == "1 0" and spec == "1 1":
-        return "poly-hash-raw"
+    """No known finding is left for C17: the four defects found on the originally pinned tree (slow_square / square index
+    panic, truncate and Hash on the raw slice, all with stored leading zeros) were repaired in /repo by commit 0fd3b2b;
+    their minimised inputs stay in corpus/C17/findings.txt as regression cases and any recurrence is a VIOLATION."""
     return None
